@@ -114,3 +114,10 @@ CHECKS["C09"] = {
   "text": "Every banded, seed-extended gapped and ungapped call in the bound is checked for: trace validity, reported score == score recomputed from the returned trace (semi-global traces completed by the unaligned ends of both sequences), score <= brute-force optimum, equality with the optimum when the band covers the table / the threshold cannot bind, diagonals inside the band, seed contained and direction respected, score_only == score of the full call. ~4.5 M evaluations quick, ~49 M thorough.",
   "note": "Trusts mc/models/align.py; exact X-drop behaviour at thresholds that do bind is not asserted (the statement does not give it); duplicate traces in banded result lists are not reported.",
 }
+CHECKS["C16"] = {
+  "engine": "E2-input-enumerator",
+  "technique": "complete enumeration of lattice point sets (all 1-4-subsets of {0,1,2}^3 up to rotation + listed larger sets; thorough all 5-subsets) x the 24 cube rotations x translations x single-coordinate noise x every atom mask x container combinations, against a float64 Horn/Kabsch reference, 48 rigid perturbations and the matrix form of the transformation",
+  "ref": "DESIGN.md section 4 C16; notes/C16.md",
+  "text": "Every fit in the bound must return an orthonormal rotation with det +1, an RMSD over the masked atoms within tolerance of the float64 optimum (both directions) and not worse than any of 48 perturbed placements, exact copies to ~0 RMSD incl. collinear/planar/mirror-ambiguous sets, apply() == 4x4 matrix form == fitted coordinates model-wise for all array/stack combinations; outlier-tolerant and homolog variants are compared with the documented loop / their own anchor selection. ~3.5 M evaluations quick, ~15 M thorough.",
+  "note": "Trusts mc/models/superpos.py (closed-form float64 optimum, rotation group, uniqueness gap); coordinates are lattice points exact in float32; a fixed stack with a single mobile array is EITHER (biotite refuses it with a clear IndexError).",
+}
